@@ -228,3 +228,9 @@ func MutexLocked(m *sync.Mutex) bool {
 	}
 	return true
 }
+
+// FreshF64 is only used by library models (never natively).
+func FreshF64(lo, hi float64) float64 { return lo }
+
+// Advance lets an arbitrary amount of (symbolic) time pass; natively time passes by itself.
+func Advance() {}
